@@ -54,7 +54,8 @@ type Case struct {
 	Root     int           `json:"root"`    // node the source reference points to
 	D0       []int         `json:"d0"`      // nodes pushed into the destination before the call (successor-closed)
 	K        int           `json:"k"`       // CopyGraphOptions.Concurrency as passed
-	Mode     string        `json:"mode"`    // g CopyGraph | t Copy into a Tagger | r Copy into a ReferencePusher
+	Mode     string        `json:"mode"`    // g CopyGraph | t Copy into a Tagger | r Copy into a ReferencePusher |
+	// x ExtendedCopyGraph | X ExtendedCopy (oracle only: the model's acceptor is per copyGraph root)
 	Src      string        `json:"src"`     // mem | oci | ocire | file | remote (remote.Repository over an in-process registry)
 	Dst      string        `json:"dst"`     // mem | oci | ocire | file | remote
 	RefFetch bool          `json:"reffetch"` // the source also implements registry.ReferenceFetcher
@@ -191,6 +192,13 @@ func (s *srcW) Exists(ctx context.Context, d ocispec.Descriptor) (bool, error) {
 
 func (s *srcW) Resolve(ctx context.Context, ref string) (ocispec.Descriptor, error) {
 	return s.under.Resolve(ctx, ref)
+}
+
+// srcWG additionally implements content.PredecessorFinder (ExtendedCopy needs a graph source).
+type srcWG struct{ *srcW }
+
+func (s srcWG) Predecessors(ctx context.Context, d ocispec.Descriptor) ([]ocispec.Descriptor, error) {
+	return s.under.(content.PredecessorFinder).Predecessors(ctx, d)
 }
 
 // srcWRef additionally implements registry.ReferenceFetcher (as remote repositories do).
@@ -669,6 +677,13 @@ func Execute(c *Case) *Result {
 
 	runCopy := func() {
 		switch c.Mode {
+		case "x", "X":
+			xo := oras.ExtendedCopyOptions{ExtendedCopyGraphOptions: oras.ExtendedCopyGraphOptions{CopyGraphOptions: gopts}}
+			if c.Mode == "x" {
+				res.Err = oras.ExtendedCopyGraph(ctx, srcWG{sw}, dw, g.Nodes[c.Root].Desc, xo.ExtendedCopyGraphOptions)
+			} else {
+				res.Returned, res.Err = oras.ExtendedCopy(ctx, srcWG{sw}, c.SrcRef, dw, c.DstRef, xo)
+			}
 		case "g":
 			var d content.Storage = dw
 			if c.Mount {
@@ -759,7 +774,7 @@ func Execute(c *Case) *Result {
 		rc.Close()
 		res.BytesOK[n.ID] = err == nil && bytes.Equal(b, n.Bytes)
 	}
-	if c.Mode != "g" {
+	if c.Mode != "g" && c.Mode != "x" {
 		d, err := dst.Resolve(ctx, c.EffRef())
 		if err == nil {
 			res.TagNode = r.node(ocispec.Descriptor{MediaType: d.MediaType, Digest: d.Digest, Size: d.Size})
@@ -854,7 +869,7 @@ func ImplObs(res *Result) string {
 		ret = "1"
 	}
 	tag := "-"
-	if res.Case.Mode != "g" && res.TagNode >= 0 {
+	if res.Case.Mode != "g" && res.Case.Mode != "x" && res.TagNode >= 0 {
 		tag = fmt.Sprint(res.TagNode)
 	}
 	var present []int
